@@ -1420,7 +1420,9 @@ class Config:  # pylint: disable=too-many-instance-attributes
             schema of a configuration type is not attached to the schema that uses the type)
         """
         # the parsed tree is not changed in place: a document may refer to one map twice
-        tree = dict(tree)
+        # (a root that is not a map is not turned into one: it is refused where it is used as a map)
+        if isinstance(tree, dict):
+            tree = dict(tree)
         sub_schemas: List[Tuple[str, Schema, Optional[str]]] = []
         for key, field in schema._fields.items():
             sub_prefix = "%s.%s" % (ref_prefix, key) if ref_prefix else None
